@@ -10,3 +10,7 @@ var schedAssume = []string{
 func init() {
 	props["C09"] = &propInfo{engine: "A", level: "model_checking", assume: schedAssume, minOutcomes: 1}
 }
+
+func init() {
+	props["C02"] = &propInfo{engine: "A", level: "model_checking", assume: schedAssume, minOutcomes: 1}
+}
